@@ -361,6 +361,13 @@ def _uses(body, name):
         if r.get("k") == "Path" and r["path"]["s"] == name:
             appended.add(id(r))
             uses.append(("append", c.get("l")))
+    # plain and compound assignment write the local without reading it for anything that reaches the output
+    for a in synq.find_all(body, lambda x: (x.get("k") == "Assign" or (x.get("k") == "Binary" and
+                                            re.fullmatch(r"(\+|-|\*|/|%|\||&|\^|<<|>>)=", x.get("op", "").strip())))):
+        l_ = a["lhs"]
+        if l_.get("k") == "Path" and l_["path"]["s"] == name:
+            appended.add(id(l_))
+            uses.append(("append", a.get("l")))
     for pth in synq.find_all(body, lambda x: x.get("k") == "Path" and x.get("path", {}).get("s") == name):
         if id(pth) not in appended:
             uses.append(("other", pth.get("l")))
